@@ -419,6 +419,41 @@ def part_ref(_):
 
 
 
+def part_event_action_ref(_):
+    """`match X() as $ev` on an event of an action the state does not know (a user / external action), then
+    `match $ev.action.Finished()`: the statement names the Finished event of THAT action instance, whatever event of
+    the action `$ev` was captured from (Started, an `<Parameter>Updated` event, ...)"""
+    res = {"event_action_ref_cases": 0, "violations": []}
+    captures = {"Started": ("UtteranceUserAction.Started()", {"type": "UtteranceUserActionStarted"}),
+                "TranscriptUpdated": ("UtteranceUserAction.TranscriptUpdated()", {"type": "UtteranceUserActionTranscriptUpdated", "interim_transcript": "hel"}),
+                "bare-TranscriptUpdated": ("UtteranceUserActionTranscriptUpdated()", {"type": "UtteranceUserActionTranscriptUpdated", "interim_transcript": "hel"}),
+                "custom-action-progress": ("CameraSensorAction.FrameCountUpdated()", {"type": "CameraSensorActionFrameCountUpdated", "frame_count": 3})}
+    for cname, (stmt, first) in captures.items():
+        action = first["type"][:first["type"].index("Action") + len("Action")]
+        src = f"flow main\n  match {stmt} as $ev\n  send Captured()\n  match $ev.action.Finished()\n  send Marker()\n  match Never()\n"
+        for label, uid2, exp in (("same-instance", "user-action-1", True), ("other-instance", "user-action-2", False)):
+            info = {"engine": "C04-ref", "source": src, "capture": cname}
+            try:
+                st = v2x.init_state(src)
+                v2x.step(st, v2x.resolve_event(st, ("start_main",)), [], v2x.UIDS.n)
+                v2x.step(st, dict(first, action_uid="user-action-1"), [], v2x.UIDS.n)
+                if not any(e["type"] == "Captured" for e in st.outgoing_events):
+                    res["violations"].append((f"event-action-reference:{cname}:capture-did-not-match", f"`match {stmt} as $ev` ignored {first}", info))
+                    continue
+                ev = {"type": action + "Finished", "action_uid": uid2, "is_success": True, "final_transcript": "hello"}
+                v2x.step(st, ev, [], v2x.UIDS.n)
+                got = any(e["type"] == "Marker" for e in st.outgoing_events)
+            except Exception as e:
+                res["violations"].append((f"event-action-reference:{cname}:raised", repr(e), info))
+                continue
+            res["event_action_ref_cases"] += 1
+            if got != exp:
+                res["violations"].append((f"event-action-reference:{cname}:{label}",
+                                          f"`match {stmt} as $ev` captured from action user-action-1, then `match $ev.action.Finished()` fed with "
+                                          f"{ev['type']} of {uid2}: expected advance={exp}, got {got}", dict(info, event=ev)))
+    return res
+
+
 # one `match $r.<Event>()` statement reached several times, `$r` referring to another action (of another type) / another
 # flow each time: a generic helper flow used for two references, and a loop that starts another action per round
 REUSED_STATEMENT = {
@@ -492,6 +527,12 @@ def part_flow_params(_):
                 matches.append((f"f.Finished({k}={v!r})".replace("'", '"'), True))
                 other = 99 if v != 99 else 98
                 matches.append((f"f.Finished({k}={other})", False))
+                # the flow parameter written in the flow part of the statement, by name and - the first one - by position
+                matches.append((f"f({k}={v!r}).Finished()".replace("'", '"'), True))
+                matches.append((f"f({k}={other}).Finished()", False))
+                if k == "p":
+                    matches.append((f"f({v!r}).Finished()".replace("'", '"'), True))
+                    matches.append((f"f({other}).Finished()", False))
             for m, exp in matches:
                 ev = "Started" if ".Started" in m else "Finished"
                 src = (f"flow f {sig}\n  match Go()\n\n"
@@ -512,6 +553,8 @@ def part_flow_params(_):
                 res["flow_param_cases"] += 1
                 if got != exp:
                     kind = "unmentioned-flow-parameter-prevents-match" if exp else "mentioned-flow-parameter-ignored"
+                    if m.startswith("f(") and "=" not in m:
+                        kind = "flow-parameter-written-by-position:" + ("no-advance" if exp else "advance")
                     res["violations"].append((f"flow-name-event:{kind}",
                                               f"`flow f {sig}` started by `{start}` (bound {b}): `match {m}` expected advance={exp}, got {got}",
                                               {"engine": "C04-flowparam", "source": src}))
@@ -760,6 +803,10 @@ def run(rep, tier):
     rr = part_ref(None)
     for sig, what, rp in rr["violations"]:
         rep.violation(sig, what, rp)
+    ea = part_event_action_ref(None)
+    for sig, what, rp in ea["violations"]:
+        rep.violation(sig, what, rp)
+    rep.set("event_action_reference_cases", ea["event_action_ref_cases"])
     pr = part_progress(None)
     for sig, what, rp in pr["violations"]:
         rep.violation(sig, what, rp)
